@@ -199,6 +199,28 @@ def run(ctx: Context, rep) -> None:
                where=sel_fn.qualname,
                construct=f"options {key}: stages {got}",
                message=f"expected stages {want}", sample=False)
+    # an option is what the caller passed, everywhere it is used: the
+    # selection-carrying functions never rebind an option parameter (a late
+    # binding lambda would forward the new value)
+    rep.rule("C12.rebind", "no selection option parameter (split, shards, "
+             "custom_metadata_type_limit, shard_filter) is assigned in a "
+             "function that forwards it")
+    n_opt = 0
+    for f_ in selection_functions(ctx):
+        for p_ in [p for p in OPTIONS if p in f_.params()]:
+            n_opt += 1
+            stores = [n for n in f_.body_nodes() if isinstance(n, ast.Name)
+                      and n.id == p_ and isinstance(n.ctx, (ast.Store, ast.Del))]
+            rep.ob("C12.rebind", not stores,
+                   loc=f_.loc(stores[0]) if stores else f_.loc(),
+                   where=f_.qualname, construct=f"{p_}: {len(stores)} "
+                   "assignment(s)", message="the option keeps the caller's "
+                   "value for the whole call", sample=False)
+    rep.floor("C12.rebind", n_opt, 10, "option parameters")
+    # the async interface sees the same selected stream (no source closed
+    # behind the helper's back: same rule as C02.borrow)
+    from sa.rules.c02 import check_borrow, stream_scope
+    check_borrow(ctx, rep, "C12.borrow", stream_scope(ctx)[1])
 
 
 
